@@ -221,7 +221,12 @@ impl World {
             if e.kind == verif::BLOCKING_END {
                 self.finished += 1;
             }
-            if e.thread != self.main_tid || self.muted {
+            if self.muted {
+                continue;
+            }
+            // 1 = emitted by another thread (a blocking-pool worker)
+            let foreign = (e.thread != self.main_tid) as u64;
+            if foreign == 1 && !(e.kind == verif::POOL_BUF || (e.kind == verif::KEY_FREE && self.keys.contains_key(&e.a))) {
                 continue;
             }
             match e.kind {
@@ -233,7 +238,7 @@ impl World {
                 }
                 verif::KEY_FREE => {
                     if let Some(k) = self.keys.remove(&e.a) {
-                        self.evs.push((2, k, 0));
+                        self.evs.push((2, k, foreign));
                     }
                 }
                 verif::SUBMIT | verif::CQE_MORE | verif::CQE_FINAL | verif::SET_RESULT | verif::DROP_DRAIN => {
@@ -248,8 +253,17 @@ impl World {
                         let tail = (e.a >> 32) & 0xffff;
                         self.evs.push((40 + e.b as u64, id, idx | tail << 16));
                     } else {
-                        self.evs.push((40 + e.b as u64, e.a, 0));
+                        self.evs.push((40 + e.b as u64, e.a, foreign));
                     }
+                }
+                verif::ENTER | verif::ENTER_RETURN => {
+                    // an enter after which nothing was reaped is of no interest
+                    let l = self.evs.len();
+                    if e.kind == verif::ENTER && l >= 2 && self.evs[l - 1].0 == 28 && self.evs[l - 2].0 == 27 {
+                        self.evs.truncate(l - 2);
+                    }
+                    self.evs.push((e.kind as u64, 0, 0));
+                    continue;
                 }
                 _ => continue,
             }
@@ -271,14 +285,15 @@ impl World {
         }
     }
 
-    fn drive(&mut self, wait_ms: u64) {
+    fn drive(&mut self, wait_ms: u64) -> usize {
+        let n0 = self.drain();
         if let Some(rt) = self.rt.as_ref() {
             rt.enter(|| {
                 rt.poll_with(Some(Duration::from_millis(wait_ms)));
                 rt.run();
             });
         }
-        self.drain();
+        n0 + self.drain()
     }
 
     /// let everything that is already under way finish: cancelled operations,
@@ -287,10 +302,9 @@ impl World {
         let t0 = Instant::now();
         let mut quiet = 0;
         while t0.elapsed() < Duration::from_millis(400) {
-            let before = self.evs.len();
             let busy = self.dispatched > self.finished;
-            self.drive(if busy { 2 } else { 0 });
-            if self.evs.len() == before && self.dispatched <= self.finished {
+            let n = self.drive(if busy { 2 } else { 0 });
+            if n == 0 && self.dispatched <= self.finished {
                 quiet += 1;
                 if quiet >= 2 {
                     break;
@@ -692,7 +706,9 @@ fn run(case: &[u64]) -> Result<Vec<u64>, BadCase> {
                 w.drive(0);
             }
             4 => w.poll_slot(a as usize),
-            5 => w.drive(a.min(5)),
+            5 => {
+                w.drive(a.min(5));
+            }
             6 => w.drop_slot(a as usize),
             7 => w.drop_handle(a as usize),
             8 => w.check(),
@@ -760,6 +776,19 @@ fn run(case: &[u64]) -> Result<Vec<u64>, BadCase> {
     w.check();
     for h in 0..w.held.len() {
         w.drop_handle(h);
+    }
+    // a blocking-pool worker that was still running when the driver went away
+    // drops its operation itself: wait for it
+    let t0 = Instant::now();
+    let mut quiet = 0;
+    while w.dispatched > 0 && quiet < 3 && t0.elapsed() < Duration::from_millis(500) {
+        std::thread::sleep(Duration::from_millis(1));
+        let n = w.drain();
+        if n == 0 && w.dispatched <= w.finished {
+            quiet += 1;
+        } else {
+            quiet = 0;
+        }
     }
     w.drain();
     let _ = verif::take();
